@@ -1,4 +1,4 @@
-(* C09 proofs, part 2: Table::_deserialize with the candidate fixes — clean, total, allocation bounded, well-formed. *)
+(* C09 proofs, part 2: Table::_deserialize as the code is now (fixes C09_1, C09_2 applied) — clean, total, allocation bounded, well-formed. *)
 From Coq Require Import List ZArith QArith Bool Lia Arith.
 From Gst Require Import C09.Model C09.Readers C09.Spec C09.Proofs_prim.
 Import ListNotations.
@@ -7,7 +7,7 @@ Local Open Scope Z_scope.
 Section Fixed.
 Variable E : env.
 Variable flen : Z.
-Hypothesis Hcfg : e_cfg E = cfg_fixed.
+Hypothesis Hcfg : cfg_ge_now (e_cfg E).
 Hypothesis Hflen : 0 <= flen.
 Hypothesis Hfuel : flen < Z.of_nat (e_fuel E).
 Hypothesis Hcap : alloc_bound flen <= e_cap E.
@@ -71,7 +71,7 @@ Proof.
   destruct (count_ok E ncols m2 && count_ok E nrows m2 && count_ok E (nrows * ncols) m2) eqn:CK; cbn [negb];
     [|split; [lia|split; [lia|exact I]]].
   apply andb_true_iff in CK. destruct CK as [CK C3]. apply andb_true_iff in CK. destruct CK as [C1 C2].
-  assert (HFC : fix_counts (e_cfg E) = true) by (rewrite Hcfg; reflexivity).
+  assert (HFC : fix_counts (e_cfg E) = true) by (destruct Hcfg as [H1' [H2' [H3' H4']]]; assumption).
   apply count_ok_fixed in C1; [|assumption]. apply count_ok_fixed in C2; [|assumption]. apply count_ok_fixed in C3; [|assumption].
   replace ((nrows <? 0) || (ncols <? 0)) with false
     by (symmetry; apply orb_false_iff; split; apply Z.ltb_ge; lia).
